@@ -13,6 +13,10 @@ E = Engine(); mod.setup(E)
 t = time.time()
 res = E.verify_function(qn, max_paths=maxp)
 print("paths", res["paths"], "complete", res["complete_paths"], "outcomes", res.get("outcomes"), "%.1fs" % (time.time() - t))
+from pyvc import symexec as _sx
+if _sx._FORKLOG:
+    for k, v in sorted(_sx._FORKLOG.items(), key=lambda kv: -kv[1])[:25]:
+        print("FORK x%d  %s" % (v, k))
 for u in res["unsupported"]:
     print("UNSUPPORTED", u)
 nopen = 0
